@@ -227,9 +227,32 @@ def main():
             if d:
                 failures.append({"class": "cache", "input": {"model": name, "history": ["transfer_model(codegen, %r)" % first, "transfer_model(codegen, %r)" % second, "transfer_model(codegen, %r)" % second]},
                                  "observed": d, "expected": "model loaded from the compiled libraries equal to a fresh compile with the current options"})
+    # a cache written for one option set, then a request that differs in an option pymoca keeps no default for
+    # (iterative_simplification is read by Model.simplify through options.get): whatever is returned equals a fresh compile
+    ITER = "model Iter Real f; Real g; Real z; Real h; equation f = 0; g = 1; f = z - h; h = g; end Iter;"
+    base = {"eliminate_constant_assignments": True, "detect_aliases": True, "replace_constant_values": True}
+    for first, second in [(base, dict(base, iterative_simplification=True)), (dict(base, iterative_simplification=True), base)]:
+        cases += 1
+        with tempfile.TemporaryDirectory() as tmp:
+            with open(os.path.join(tmp, "Iter.mo"), "w") as f:
+                f.write(ITER)
+            past = time.time() - 1000
+            os.utime(os.path.join(tmp, "Iter.mo"), (past, past))
+            try:
+                transfer_model(tmp, "Iter", dict(first, cache=True))
+                got = transfer_model(tmp, "Iter", dict(second, cache=True))
+                fresh = transfer_model(tmp, "Iter", dict(second, cache=False, expand_mx=True))
+                d = diff(fingerprint(fresh, np.random.RandomState(seed + 7)), fingerprint(got, np.random.RandomState(seed + 7)))
+                if d:
+                    d = "%s returned for the second request: %s" % (type(got).__name__, d)
+            except BaseException as e:  # noqa
+                d = "%s: %s" % (type(e).__name__, str(e)[:150])
+            if d:
+                failures.append({"class": "cache", "input": {"model": ITER, "history": ["transfer_model(cache, %r)" % first, "transfer_model(cache, %r)" % second]},
+                                 "observed": d, "expected": "a model equal to a fresh compile with the options of the second request"})
     if payload.get("mode") == "bounded":
         print(json.dumps({"performed": True, "cases": cases, "distinct_nontrivial": cases, "failures": failures[:4],
-                          "rule": "models with vectors/matrices before scalars, parameter-dependent attributes, aliases, delay and string parameters x option sets: the real transfer_model(cache=True) result (loaded from the cache file) is compared with a fresh compile on names, order, shapes, Python types, every attribute at random parameter values, outputs, delay states, aliases and the residual / initial residual / metadata functions at random points; plus code-generated libraries loaded after an option change in the same folder",
+                          "rule": "models with vectors/matrices before scalars, parameter-dependent attributes, aliases, delay and string parameters x option sets: the real transfer_model(cache=True) result (loaded from the cache file) is compared with a fresh compile on names, order, shapes, Python types, every attribute at random parameter values, outputs, delay states, aliases and the residual / initial residual / metadata functions at random points; plus code-generated libraries loaded after an option change in the same folder, and a cached request after a change of an option outside pymoca's default table",
                           "bound": "%d model/option pairs, one random point each (seed %d)" % (cases, seed)}))
     else:
         f = failures[0] if failures else None
